@@ -528,4 +528,198 @@ theorem setDelItem_none (s : Node) (key : Text) (d : Doc) (h1 : findBinding s.se
   simp only [setDelItem, h1]
   cases s.setSid? <;> rfl
 
+/-! ### attrpath families -/
+
+theorem findNamedBinding_some (vs : List Node) (k : Text) (ne : Bool) (b : Node)
+    (h : findNamedBinding vs k (some ne) = some b) :
+    ∃ i val bf af, b = .bind i k ne val bf af ∧ b ∈ vs := by
+  unfold findNamedBinding at h
+  have hm := List.mem_of_find?_eq_some h
+  have hp := List.find?_some h
+  cases b <;> simp [isBind, bindName?, bindNested] at hp
+  rename_i i n ne' val bf af
+  obtain ⟨rfl, rfl⟩ := hp
+  exact ⟨i, val, bf, af, rfl, hm⟩
+
+theorem findAttrpathRoot_some (vs : List Node) (k : Text) (b : Node) (h : findAttrpathRoot vs k = some b) :
+    ∃ i val bf af, b = .bind i k true val bf af ∧ b ∈ vs := by
+  unfold findAttrpathRoot at h
+  have hm := List.mem_of_find?_eq_some h
+  have hp := List.find?_some h
+  cases b <;> simp [isBind, bindName?, bindNested] at hp
+  rename_i i n ne' val bf af
+  obtain ⟨rfl, rfl⟩ := hp
+  exact ⟨i, val, bf, af, rfl, hm⟩
+
+theorem mem_denoteL_of_mem (vs : List Node) (k : Text) (i : Nat) (ne : Bool) (val : Node) (bf af : Payload)
+    (h : .bind i k ne val bf af ∈ vs) : (k, denote val) ∈ denoteL vs := by
+  induction vs with
+  | nil => simp at h
+  | cons y r ih =>
+    simp only [denoteL_cons, List.mem_append]
+    rcases List.mem_cons.mp h with e | h
+    · left; rw [← e]; simp
+    · right; exact ih h
+
+/-- with unique names, any binding of the list named `k` is the one `findBinding` returns -/
+theorem findBinding_of_mem (vs : List Node) (k : Text) (i : Nat) (ne : Bool) (val : Node) (bf af : Payload)
+    (hn : AttrTree.nodupL (denoteL vs) = true) (hm : .bind i k ne val bf af ∈ vs) :
+    findBinding vs k = some (.bind i k ne val bf af) := by
+  cases hf : findBinding vs k with
+  | none =>
+    have := findBinding_none vs k hf _ hm
+    simp [isNamed, isBind, bindName?] at this
+  | some b' =>
+    obtain ⟨i', ne', val', bf', af', pre, post, rfl, hvs, hpre⟩ := findBinding_some _ _ _ hf
+    subst hvs
+    rcases List.mem_append.mp hm with h | h
+    · have := hpre _ h; simp [isNamed, isBind, bindName?] at this
+    · rcases List.mem_cons.mp h with h | h
+      · rw [h]
+      · exfalso
+        rw [AttrTree.nodupL_iff] at hn
+        have hk := hn.1
+        simp only [denoteL_append, denoteL_cons, denoteI_bind, Kids.keys_append, List.singleton_append,
+          Kids.keys_cons, List.nodup_append, List.nodup_cons] at hk
+        apply hk.2.1.1
+        have := mem_denoteL_of_mem post k i ne val bf af h
+        exact List.mem_map.mpr ⟨_, this, rfl⟩
+
+/-- the (parent set, binding) stack `_walk_attrpath_stack` builds below the set `P` for the names `ks`:
+    every binding but the last is an attrpath parent (`nested = true`, holding a set), the last one has
+    `nested = ln` -/
+def Chain (ln : Bool) : Node → List Text → List (Node × Node) → Prop
+  | _, [], st => st = []
+  | P, k :: ks, st =>
+    match ks with
+    | [] => ∃ i val bf af, st = [(P, .bind i k ln val bf af)] ∧
+        findBinding P.setValues k = some (.bind i k ln val bf af)
+    | _ :: _ => ∃ i s vs o m r bf af rest, st = (P, .bind i k true (.set s vs o m r) bf af) :: rest ∧
+        findBinding P.setValues k = some (.bind i k true (.set s vs o m r) bf af) ∧
+        Chain ln (.set s vs o m r) ks rest
+
+theorem nodup_of_mem_bind (vs : List Node) (i : Nat) (k : Text) (ne : Bool) (val : Node) (bf af : Payload)
+    (hn : AttrTree.nodupL (denoteL vs) = true) (hm : .bind i k ne val bf af ∈ vs) :
+    (denote val).nodup = true :=
+  ((AttrTree.nodupL_iff _).mp hn).2 _ (mem_denoteL_of_mem vs k i ne val bf af hm)
+
+theorem go_chain (ln rr : Bool) (ks : List Text) : ∀ (cur : Node) (acc st : List (Node × Node)),
+    (denote cur).nodup = true → cur.isSet = true →
+    walkAttrpathStack.go ln rr cur acc ks = .ok (some st) →
+    ∃ tail, st = acc ++ tail ∧ Chain ln cur ks tail := by
+  induction ks with
+  | nil =>
+    intro cur acc st _ _ h
+    rw [walkAttrpathStack.go.eq_1] at h
+    injection h with h; injection h with h
+    exact ⟨[], by simp [h], rfl⟩
+  | cons k ks ih =>
+    intro cur acc st hn hset h
+    obtain ⟨c, vs, o, m, r, rfl⟩ := (isSet_iff cur).mp hset
+    simp only [denote_set, AttrTree.nodup_node] at hn
+    cases ks with
+    | nil =>
+      rw [walkAttrpathStack.go.eq_2] at h
+      cases hf : findNamedBinding (Node.set c vs o m r).setValues k (some ln) with
+      | none => simp only [hf] at h; split at h <;> cases h
+      | some b =>
+        simp only [hf] at h
+        injection h with h; injection h with h
+        obtain ⟨i, val, bf, af, rfl, hm⟩ := findNamedBinding_some _ _ _ _ hf
+        refine ⟨[(_, _)], h.symm, i, val, bf, af, rfl, findBinding_of_mem vs k i ln val bf af hn hm⟩
+    | cons k2 ks2 =>
+      rw [walkAttrpathStack.go.eq_3 _ _ _ _ _ _ (by simp)] at h
+      cases hf : findNamedBinding (Node.set c vs o m r).setValues k (some true) with
+      | none => simp only [hf] at h; split at h <;> cases h
+      | some b =>
+        simp only [hf] at h
+        obtain ⟨i, val, bf, af, rfl, hm⟩ := findNamedBinding_some _ _ _ _ hf
+        cases val with
+        | set s2 vs2 o2 m2 r2 =>
+          simp only [bindValue?] at h
+          obtain ⟨tail, e, hc⟩ := ih (.set s2 vs2 o2 m2 r2) _ st
+            (nodup_of_mem_bind vs i k true _ bf af hn hm) rfl h
+          refine ⟨(_, _) :: tail, by simp [e], i, s2, vs2, o2, m2, r2, bf, af, tail, rfl,
+            findBinding_of_mem vs k i true _ bf af hn hm, hc⟩
+        | _ => simp only [bindValue?] at h; split at h <;> cases h
+
+theorem walk_chain (ts : Node) (segs : List Text) (ln rr : Bool) (st : List (Node × Node))
+    (hn : (denote ts).nodup = true) (hset : ts.isSet = true)
+    (h : walkAttrpathStack ts segs ln rr = .ok (some st)) :
+    2 ≤ segs.length ∧ Chain ln ts segs st := by
+  obtain ⟨c, vs, o, m, r, rfl⟩ := (isSet_iff ts).mp hset
+  simp only [denote_set, AttrTree.nodup_node] at hn
+  unfold walkAttrpathStack at h
+  cases segs with
+  | nil => simp only at h; split at h <;> cases h
+  | cons root rest =>
+    cases rest with
+    | nil => simp only at h; split at h <;> cases h
+    | cons k2 ks2 =>
+      simp only at h
+      cases hf : findAttrpathRoot (Node.set c vs o m r).setValues root with
+      | none => simp only [hf] at h; split at h <;> cases h
+      | some b =>
+        obtain ⟨i, val, bf, af, rfl, hm⟩ := findAttrpathRoot_some _ _ _ hf
+        simp only [hf, bindValue?] at h
+        cases val with
+        | set s2 vs2 o2 m2 r2 =>
+          simp only at h
+          obtain ⟨tail, e, hc⟩ := go_chain ln rr (k2 :: ks2) (.set s2 vs2 o2 m2 r2) _ st
+            (nodup_of_mem_bind vs i root true _ bf af hn hm) rfl h
+          refine ⟨by simp, i, s2, vs2, o2, m2, r2, bf, af, tail, by simpa using e,
+            findBinding_of_mem vs root i true _ bf af hn hm, hc⟩
+        | _ => simp only at h; split at h <;> cases h
+
+/-- the last entry of the stack is the leaf binding, found under the last name in the set at the
+    parent path -/
+theorem chain_last (ln : Bool) (ks : List Text) : ∀ (P : Node) (st : List (Node × Node)), ks ≠ [] →
+    Chain ln P ks st → P.isSet = true →
+    ∃ par i final val bf af, st.getLast? = some (par, .bind i final ln val bf af) ∧
+      ks = ks.dropLast ++ [final] ∧ subAt P ks.dropLast = some par ∧ par.isSet = true ∧
+      findBinding par.setValues final = some (.bind i final ln val bf af) := by
+  induction ks with
+  | nil => intro P st h; exact absurd rfl h
+  | cons k ks ih =>
+    intro P st _ hc hP
+    cases ks with
+    | nil =>
+      obtain ⟨i, val, bf, af, rfl, hf⟩ := hc
+      exact ⟨P, i, k, val, bf, af, rfl, rfl, rfl, hP, hf⟩
+    | cons k2 ks2 =>
+      obtain ⟨i, s, vs, o, m, r, bf, af, rest, rfl, hf, hc'⟩ := hc
+      obtain ⟨par, i', final, val, bf', af', h1, h2, h3, h4, h5⟩ := ih (.set s vs o m r) rest (by simp) hc' rfl
+      refine ⟨par, i', final, val, bf', af', ?_, ?_, ?_, h4, h5⟩
+      · cases rest with
+        | nil => simp at h1
+        | cons x xs => simpa [List.getLast?_cons_cons] using h1
+      · rw [List.dropLast_cons_cons, List.cons_append, ← h2]
+      · rw [List.dropLast_cons_cons]
+        simp only [subAt, stepInto, hf, Option.bind_some, bindValue?]
+        exact h3
+
+/-- `set` along an existing parent path is: upsert the last key in the set found there. -/
+theorem specSet_graft (v : Node) (final : Text) (ks : List Text) : ∀ (kids sub : Kids),
+    treeAt (.node kids) ks = some (.node sub) →
+    specSet (.node kids) (ks ++ [final]) v =
+      some (graft ks (.node (Kids.upsert final (denote v) sub)) (.node kids)) := by
+  induction ks with
+  | nil =>
+    intro kids sub h
+    simp only [treeAt_nil, Option.some.injEq, AttrTree.node.injEq] at h; subst h
+    simp [specSet, specSetK_single]
+  | cons k r ih =>
+    intro kids sub h
+    simp only [treeAt] at h
+    cases hk : Kids.lookup k kids with
+    | none => simp [hk] at h
+    | some t =>
+      simp only [hk] at h
+      obtain ⟨sub1, rfl⟩ := treeAt_node_of_cons t sub r h
+      have := ih sub1 sub h
+      simp only [specSet, Option.map_eq_some_iff] at this
+      obtain ⟨s', hs', e⟩ := this
+      simp only [specSet, List.cons_append, specSetK_node v kids sub1 k (r ++ [final]) (by simp) hk, hs',
+        Option.map_some, graft, hk, Option.getD_some, e]
+
 end Nima
